@@ -48,6 +48,10 @@ type FaultPlan struct {
 	// be placed between the statements of a script executed with one Exec.
 	Stmt     bool
 	lastStmt string
+	// Done makes the END of a query that runs outside a transaction a step of its own (kind
+	// "done", when its rows are closed): the moment at which a caller that has read on one
+	// connection and not yet asked for the next one holds no connection at all.
+	Done bool
 }
 
 var Plan = &FaultPlan{}
@@ -88,8 +92,8 @@ func (p *FaultPlan) step(kind string) (err error, post func()) {
 	n := p.count
 	p.Trace = append(p.Trace, kind)
 	cb := p.OnStep
-	fail := p.failAt != 0 && n == p.failAt
-	exit := p.exitAt != 0 && n == p.exitAt
+	fail := p.failAt != 0 && n == p.failAt && kind != "done"
+	exit := p.exitAt != 0 && n == p.exitAt && kind != "done"
 	exitPost := p.exitPost
 	if fail {
 		p.Fired = true
@@ -117,10 +121,28 @@ func (d *faultDriver) Open(name string) (driver.Conn, error) {
 	if err != nil {
 		return nil, err
 	}
-	return &faultConn{c.(*sqlite3.SQLiteConn)}, nil
+	return &faultConn{c: c.(*sqlite3.SQLiteConn)}, nil
 }
 
-type faultConn struct{ c *sqlite3.SQLiteConn }
+type faultConn struct {
+	c    *sqlite3.SQLiteConn
+	inTx bool
+}
+
+// faultRows reports the end of an autocommitted query as a step.
+type faultRows struct {
+	driver.Rows
+	closed bool
+}
+
+func (r *faultRows) Close() error {
+	e := r.Rows.Close()
+	if !r.closed {
+		r.closed = true
+		_, _ = Plan.step("done")
+	}
+	return e
+}
 
 func (fc *faultConn) Prepare(query string) (driver.Stmt, error) { return fc.c.Prepare(query) }
 func (fc *faultConn) Close() error                              { return fc.c.Close() }
@@ -140,7 +162,8 @@ func (fc *faultConn) BeginTx(ctx context.Context, opts driver.TxOptions) (driver
 	if e != nil {
 		return nil, e
 	}
-	return &faultTx{tx}, nil
+	fc.inTx = true
+	return &faultTx{tx: tx, fc: fc}, nil
 }
 
 func (fc *faultConn) ExecContext(ctx context.Context, query string, args []driver.NamedValue) (driver.Result, error) {
@@ -164,6 +187,9 @@ func (fc *faultConn) QueryContext(ctx context.Context, query string, args []driv
 	if post != nil {
 		post()
 	}
+	if e == nil && r != nil && Plan.Done && !fc.inTx {
+		return &faultRows{Rows: r}, nil
+	}
 	return r, e
 }
 
@@ -172,9 +198,15 @@ func (fc *faultConn) PrepareContext(ctx context.Context, query string) (driver.S
 }
 func (fc *faultConn) Ping(ctx context.Context) error { return fc.c.Ping(ctx) }
 
-type faultTx struct{ tx driver.Tx }
+type faultTx struct {
+	tx driver.Tx
+	fc *faultConn
+}
 
 func (t *faultTx) Commit() error {
+	if t.fc != nil {
+		t.fc.inTx = false
+	}
 	err, post := Plan.step("commit")
 	if err != nil {
 		// a failed commit leaves the transaction to be rolled back
@@ -187,7 +219,12 @@ func (t *faultTx) Commit() error {
 	}
 	return e
 }
-func (t *faultTx) Rollback() error { return t.tx.Rollback() }
+func (t *faultTx) Rollback() error {
+	if t.fc != nil {
+		t.fc.inTx = false
+	}
+	return t.tx.Rollback()
+}
 
 func init() {
 	inner := &sqlite3.SQLiteDriver{ConnectHook: func(c *sqlite3.SQLiteConn) error {
